@@ -478,3 +478,67 @@ package jsonpatch
 //@   ensures[C16] rejects-ill-formed: len(doc) > 0 && !wf(doc) ==> err != nil
 //@   loop 1
 //@   invariant state: conOK(*pd) && err == nil && *accumulatedCopySize >= 0
+
+// ---- RFC 7396 merge (C02, C07) ----
+
+//@ func pruneNulls
+//@   requires node: nodeOK(n) && (n.which == eAry ==> n.ary != nil) && (n.which != eAry && n.raw != nil ==> kind(val(*n.raw)) != KNull)
+//@   requires options: options != nil
+//@   requires tree: noNullKids()
+//@   modifies region(lazyNode.which), region(lazyNode.doc), region(lazyNode.ary), region(partialDoc.obj), region(partialDoc.keys), region(partialDoc.opts), region(partialArray.nodes), region(elem string), region(map map[string]*lazyNode)
+//@   ensures[C02] tree: noNullKids()
+//@   ensures[C02,C04] children-stable: forall c *lazyNode {c.which} :: old(childOK(c)) ==> childOK(c)
+//@   ensures[C02,C04] node-stable: nodeOK(n) && (n.which == eAry ==> n.ary != nil)
+
+//@ func pruneDocNulls
+//@   requires doc: doc != nil && allocated(doc) && options != nil
+//@   requires tree: noNullKids()
+//@   modifies region(lazyNode.which), region(lazyNode.doc), region(lazyNode.ary), region(partialDoc.obj), region(partialDoc.keys), region(partialDoc.opts), region(partialArray.nodes), region(elem string), region(map map[string]*lazyNode)
+//@   ensures[C02] same-doc: result == doc
+//@   ensures[C02] tree: noNullKids()
+//@   ensures[C02,C04] children-stable: forall c *lazyNode {c.which} :: old(childOK(c)) ==> childOK(c)
+//@   ensures[C02] no-null-members: forall k string {doc.obj[k]} :: k in doc.obj ==> doc.obj[k] != nil
+//@   loop 1
+//@   invariant tree: noNullKids()
+//@   invariant children-stable: forall c *lazyNode {c.which} :: old(childOK(c)) ==> childOK(c)
+//@   invariant visited-non-null: forall k string {doc.obj[k]} :: k in doc.obj && visited(k) ==> doc.obj[k] != nil
+
+//@ func pruneAryNulls
+//@   requires ary: ary != nil && allocated(ary) && options != nil
+//@   requires tree: noNullKids()
+//@   modifies ary.nodes
+//@   ensures[C02,C07] same-array: result == ary
+//@   ensures[C02,C07] arrays-verbatim: len(ary.nodes) == old(len(ary.nodes)) && (forall i int :: 0 <= i && i < len(ary.nodes) ==> ary.nodes[i] == old(ary.nodes[i]))
+//@   loop 1
+//@   invariant copied: len(newAry) == rangeindex + 1 && (forall i int :: 0 <= i && i <= rangeindex ==> newAry[i] == ary.nodes[i]) && ary.nodes == old(ary.nodes) && newAry != nil && fresh(newAry)
+
+//@ func merge
+//@   requires nodes: nodeOK(cur) && nodeOK(patch) && (cur.which == eAry ==> cur.ary != nil) && (patch.which == eAry ==> patch.ary != nil) && options != nil
+//@   requires non-null: (patch.which != eAry && patch.raw != nil ==> kind(val(*patch.raw)) != KNull)
+//@   requires tree: noNullKids()
+//@   modifies region(lazyNode.which), region(lazyNode.doc), region(lazyNode.ary), region(partialDoc.obj), region(partialDoc.keys), region(partialDoc.opts), region(partialArray.nodes), region(elem string), region(map map[string]*lazyNode)
+//@   ensures[C02,C07] result: result == cur || result == patch
+//@   ensures[C02] tree: noNullKids()
+//@   ensures[C02,C04] children-stable: forall c *lazyNode {c.which} :: old(childOK(c)) ==> childOK(c)
+//@   ensures[C02,C04] result-ok: nodeOK(result) && (result.which == eAry ==> result.ary != nil) && (result.raw != nil ==> kind(val(*result.raw)) != KNull || result.which == eAry)
+
+//@ func mergeDocs
+//@   requires docs: doc != nil && patch != nil && allocated(doc) && allocated(patch) && options != nil && doc.obj != nil
+//@   requires tree: noNullKids()
+//@   modifies region(lazyNode.which), region(lazyNode.doc), region(lazyNode.ary), region(partialDoc.obj), region(partialDoc.keys), region(partialDoc.opts), region(partialArray.nodes), region(elem string), region(map map[string]*lazyNode)
+//@   ensures[C02] tree: noNullKids()
+//@   ensures[C02,C04] children-stable: forall c *lazyNode {c.which} :: old(childOK(c)) ==> childOK(c)
+//@   ensures[C02] same-map: doc.obj == old(doc.obj)
+//@   loop 1
+//@   invariant tree: noNullKids()
+//@   invariant children-stable: forall c *lazyNode {c.which} :: old(childOK(c)) ==> childOK(c)
+//@   invariant same-map: doc.obj == old(doc.obj) && patch.obj == old(patch.obj)
+
+//@ func isSyntaxError
+//@   modifies nothing
+
+//@ func doMergePatch
+//@   assume A-merge-entry: noNullKids()
+//@   ensures[C02,C16] rejects-ill-formed-doc: !wf(docData) ==> err != nil && result.0 == nil
+//@   ensures[C02,C16] rejects-ill-formed-patch: !wf(patchData) ==> err != nil && result.0 == nil
+//@   ensures[C02] null-document: wf(docData) && wf(patchData) && kind(val(docData)) == KNull ==> err != nil
